@@ -198,6 +198,9 @@ class Ctx:
             cmd += list(extra)
         cmd += [module + ".tla"]
         env = dict(os.environ)
+        # deep set comprehensions of the judge specs need a bigger Java stack (a StackOverflowError is not a verdict)
+        if "-Xss" not in env.get("JAVA_TOOL_OPTIONS", ""):
+            env["JAVA_TOOL_OPTIONS"] = (env.get("JAVA_TOOL_OPTIONS", "") + " -Xss512m").strip()
         if dfs:
             env["JAVA_TOOL_OPTIONS"] = (env.get("JAVA_TOOL_OPTIONS", "") +
                                         " -Dtlc2.tool.queue.IStateQueue=StateDeque").strip()
